@@ -30,6 +30,16 @@ CONFIGS = {
         "HBS_LMS_TREE_HEIGHTS": "25",
         "HBS_LMS_WINTERNITZ_PARAMETERS": "8",
     },
+    "l2mixed": {  # non-uniform per-level limits
+        "HBS_LMS_MAX_ALLOWED_HSS_LEVELS": "2",
+        "HBS_LMS_TREE_HEIGHTS": "5, 10",
+        "HBS_LMS_WINTERNITZ_PARAMETERS": "8, 4",
+    },
+    "l3mixed": {
+        "HBS_LMS_MAX_ALLOWED_HSS_LEVELS": "3",
+        "HBS_LMS_TREE_HEIGHTS": "10, 5, 15",
+        "HBS_LMS_WINTERNITZ_PARAMETERS": "2, 8, 4",
+    },
     "l1w8h5": {
         "HBS_LMS_MAX_ALLOWED_HSS_LEVELS": "1",
         "HBS_LMS_TREE_HEIGHTS": "5",
@@ -284,15 +294,15 @@ for n in (16, 24, 32):
           encodes=["generate_child_seed_and_lms_tree_identifier", "generate_signature_randomizer", "SeedDerive::seed_derive"],
           forall="every parent seed, identifier and 32-bit leaf index, every digest value", bounds="exact", unwind=70)
 for name in ("c08_ots_private_key_n16_w8", "c08_ots_private_key_n24_w8", "c08_ots_private_key_n32_w8", "c08_ots_private_key_n16_w4"):
-    H("C08", "quick", "c08d", name, timeout=1800, model=_rec, encodes=["lm_ots::keygen::generate_private_key"],
+    H("C08", "quick", "c08d", name, config="w8" if name.endswith("w8") else "w4", timeout=1800, model=_rec, encodes=["lm_ots::keygen::generate_private_key"],
       forall="every seed, identifier, 32-bit leaf index, every digest value", bounds="p <= 35 chains (W8 for all n, W4 for n=16); the 265-chain case (n=32, W1) is outside", unwind=70)
 _recsum = _rec + "; Winternitz chain recorded as one summarised step (HashChain override), the default loop is covered by c07_chain_default_loop_*"
 for name in ("c08_ots_public_key_n16_w8", "c08_ots_public_key_n32_w8", "c08_ots_public_key_n16_w4"):
-    H("C08", "quick" if name.endswith("n16_w8") else "thorough", "c08d", name, timeout=3600, model=_recsum, encodes=["lm_ots::keygen::generate_public_key", "HashChain::prepare_hash_chain_data / do_hash_chain"],
+    H("C08", "quick" if name.endswith("n16_w8") else "thorough", "c08d", name, config="w8" if name.endswith("w8") else "w4", timeout=3600, model=_recsum, encodes=["lm_ots::keygen::generate_public_key", "HashChain::prepare_hash_chain_data / do_hash_chain"],
       forall="every chain start value, identifier, leaf index, every digest value", bounds="p <= 35 chains", unwind=70)
 for name in ("c07_ots_sign_and_candidate_n16_w8", "c07_ots_sign_and_candidate_n16_w4", "c07_ots_sign_and_candidate_n32_w8"):
     for prop in ("C07", "C01"):
-        H(prop, "quick" if name.endswith("n16_w8") else "thorough", "c08d", name, timeout=3600, model=_recsum,
+        H(prop, "quick" if name.endswith("n16_w8") else "thorough", "c08d", name, config="w8" if name.endswith("w8") else "w4", timeout=3600, model=_recsum,
           encodes=["LmotsSignature::sign / sign_core / calculate_signature / calculate_message_hash", "lm_ots::verify::generate_public_key_candidate",
                    "LmotsParameter::append_checksum_to", "util::coef::coef", "HashChain::do_hash_chain"],
           forall="every chain start value, identifier, leaf index, randomizer, message of length 0..5, every digest value; reference digits from the Appendix-B formula",
@@ -301,3 +311,77 @@ for n in (16, 32):
     for prop in ("C07", "C08"):
         H(prop, "quick", "c08d", f"c07_chain_default_loop_n{n}", timeout=900, model=_rec, encodes=["HashChain::do_hash_chain", "HashChain::do_actual_hash_chain (default body)", "HashChain::prepare_hash_chain_data"],
           forall="every identifier, leaf index, 16-bit chain index, start value, start position 0..255, 0..3 steps", bounds="at most 3 consecutive steps per query (the loop body is the same for every j)", unwind=70)
+
+# ---------------------------------------------------------------------------------------------
+# C01 completeness: LM-OTS round trip (ToyLin family) and the signer's authentication-path rule
+_toylin = ("ToyLinN: deterministic toy hash keyed by a symbolic 32-byte salt (a family of functions); Winternitz chain = composable XOR-mask summary "
+           "(chain(a,max) o chain(0,a) = chain(0,max) holds by algebra); completeness is hash-agnostic, so a failure under any deterministic H is a structural fault")
+# (the direct ToyLin round-trip harnesses c01_l1_ots_roundtrip_* exist in proofs/c01.rs but are not registered: CBMC ran out of
+#  memory on the smallest instance; LM-OTS completeness is decided by the transcript harnesses c07_ots_sign_and_candidate_* and
+#  c08_ots_public_key_* instead: signer and verifier use the same Q pre-image and the same digits a_i, signer chain i runs 0 -> a_i from
+#  x_i, verifier chain i runs a_i -> 2^w-1 from y_i, public key chain i runs 0 -> 2^w-1 from x_i)
+for h in (5, 10, 15, 20, 25):
+    for prop in ("C01", "C07"):
+        H(prop, "quick", "c01", f"c01_l2_auth_path_rule_h{h}", config="w8", timeout=3600, model="ToyLin16 (only used for node(index) of the tree contract)", unwind=36,
+          encodes=["LmsSignature::sign / build_authentication_path", "LmsPrivateKey::use_lmots_private_key"], replayable=False,
+          forall=f"every leaf index 0..2^{h}-1 (symbolic), every identifier", bounds="exact",
+          stubs=DEFAULT_STUBS + ["lms::helper::get_tree_element -> node(index) = toy(index) (no tree is built)", "LmotsSignature::sign -> empty LM-OTS signature",
+                                 "lm_ots::keygen::generate_private_key -> key without chain values"])
+
+# C06 / C01 / C14: level-count boundary of the signature parser under a 2-level build
+for k in range(4):
+    for prop in (("C06", "C14") if k >= 2 else ("C06", "C01", "C14")):
+        H(prop, "quick", "c06::level_capacity", f"c06_level_count_{k}_of_2", config="l2w8h5", timeout=1800, model="Havoc16 (parsers compute no digest)", encodes=_parse_fns, unwind=8,
+          forall=f"level count field = {k}, followed by that many well-formed signed public keys (type codes assigned, everything else symbolic) and a final signature",
+          bounds="build configuration: 2 levels (signed-key container capacity 1); n=16/W8/H5 shapes")
+
+# ---------------------------------------------------------------------------------------------
+# C10 auxiliary data: level selection, layout, MAC guard
+for name in ("c10_level_selection_h5_n16", "c10_level_selection_h10_n32", "c10_level_selection_h15_n24", "c10_level_selection_h20_n32", "c10_level_selection_h25_n16"):
+    H("C10", "quick", "c10", name, timeout=1200, model="none (pure arithmetic)", encodes=["hss::aux::hss_optimal_aux_level", "hss::aux::hss_get_aux_data_len"], unwind=16,
+      forall="every buffer length 0..2^32", bounds="one (height, n) pair per harness")
+for name in ("c10_mac_guard_exact_tail", "c10_mac_guard_missing_tail", "c10_mac_guard_short_tail", "c10_mac_guard_long_tail"):
+    for prop in ("C10", "C09"):
+        H(prop, "quick", "c10", name, timeout=3600, model=_rec, unwind=70,
+          encodes=["hss::aux::hss_expand_aux_data", "hss::aux::compute_hmac / compute_hmac_ipad / compute_hmac_opad / compute_seed_derive", "hss::aux::hss_is_aux_data_used"],
+          forall="every buffer content (level word assigned: levels 1 and 3, n=16), every seed, every digest value; tail of 16 / 0 / 15 / 17 bytes after the level area",
+          bounds="level area 164 bytes")
+H("C10", "quick", "c10", "c10_fresh_buffer_layout_and_finalize", timeout=3600, model=_rec, unwind=70,
+  encodes=["HssPrivateKey::get_expanded_aux_data", "hss::aux::hss_get_aux_data_len / hss_optimal_aux_level / hss_store_aux_marker / hss_expand_aux_data / hss_finalize_aux_data"],
+  forall="every content of a 700-byte fresh buffer (first byte 0), every seed, every digest value", bounds="top tree H5, n=16 (levels 5, 3, 1)")
+
+H("C10", "quick", "c10", "c10_mac_guard_even_levels", timeout=3600, model=_rec, unwind=70,
+  encodes=["hss::aux::hss_expand_aux_data", "hss::aux::compute_hmac"], forall="as c10_mac_guard_exact_tail with levels 2 and 4 (even levels, as cached for top trees of height 10/20)", bounds="level area 324 bytes")
+for prop in ("C10", "C11"):
+    H(prop, "quick", "c10", "c10_expand_arbitrary_small_buffer", timeout=3600, model="Havoc16", unwind=40,
+      encodes=["hss::aux::hss_is_aux_data_used", "hss::aux::hss_expand_aux_data"], forall="every buffer of every length 0..40 and content (every level word), with / without seed", bounds="cap 40 bytes")
+for prop in ("C04", "C09", "C05"):
+    H(prop, "quick", "c04", "c04_signing_key_entry_contract_h5", config="w8", timeout=3600, model="HavocSum16", unwind=36, replayable=False, stubs=_contract_stubs,
+      encodes=_sign_fns + ["SigningKey::from_bytes / try_sign / try_sign_with_aux / get_lifetime / as_slice"],
+      forall="1 level H5/W8 (type byte assigned), every counter 0..31, every seed", bounds="n=16; LMS layer by contract")
+    H(prop, "thorough", "c04", "c04_signing_key_entry_contract_h10_h5", config="w8", timeout=7200, model="HavocSum16", unwind=36, replayable=False, stubs=_contract_stubs,
+      encodes=_sign_fns + ["SigningKey::*"], forall="2 levels H10,H5 / W8, every counter 0..2^15-1, every seed", bounds="n=16; LMS layer by contract")
+# C14: the same harnesses under reduced / non-uniform build configurations
+for cfg in ("default", "w8", "l1w8h5", "l2w8h5", "l2mixed", "l3mixed", "l3w8h5"):
+    H("C14", "quick", "c14", "c14_capacities_cover_the_limits", config=cfg, timeout=600, model="none (constants)", unwind=12,
+      encodes=["build.rs -> constants::{MAX_ALLOWED_HSS_LEVELS, TREE_HEIGHTS, WINTERNITZ_PARAMETERS, MAX_TREE_HEIGHT, MIN_WINTERNITZ_PARAMETER}",
+               "constants::{MAX_NUM_WINTERNITZ_CHAINS, MAX_LMS_SIGNATURE_LENGTH, MAX_HSS_SIGNATURE_LENGTH, get_hss_signature_length}"],
+      forall="the constants generated for this configuration vs the RFC length formulas at every level's worst case, for every admissible level count",
+      bounds="exact for the configuration")
+for cfg in ("l2w8h5", "l1w8h5"):
+    H("C14", "quick", "c04", "c04_malformed_key_n16", config=cfg, timeout=3600, model="HavocSum16", encodes=_pre_fns, unwind=36, replayable="try",
+      stubs=DEFAULT_STUBS + ["HssPrivateKey::from -> contracts::model_from_fails"],
+      forall="every private-key byte string of every length 0..40 under a reduced build: keys using more levels / taller trees / smaller W than configured are refused",
+      bounds="n=16")
+
+# ---------------------------------------------------------------------------------------------
+# C09 purity (2-run harnesses under the deterministic toy family)
+H("C09", "quick", "c09", "c09_derivation_units_twice", flagset="eq", timeout=3600, model="ToySum16 (deterministic toy hash keyed by a symbolic salt)", unwind=40,
+  encodes=["ReferenceImplPrivateKey::generate_root_seed_and_lms_tree_identifier", "generate_child_seed_and_lms_tree_identifier", "generate_signature_randomizer",
+           "SeedDerive::seed_derive", "lm_ots::keygen::generate_private_key"],
+  forall="every salt, two seeds, every leaf index; each unit run twice with an unrelated derivation in between", bounds="n=16, W8")
+for name, tier in (("c09_sign_twice_contract_h5", "quick"), ("c09_sign_twice_contract_h5_h5", "thorough")):
+    H("C09", tier, "c09", name, config="w8", flagset="eq", timeout=7200, model="ToySum16", unwind=36, replayable=False, stubs=_contract_stubs,
+      encodes=_sign_fns + ["SigningKey::from_bytes / try_sign"],
+      forall="every salt, seed, counter of the lifetime, 3-byte message; sign twice through hbs_lms::sign with another key's signing in between, once through SigningKey::try_sign",
+      bounds="n=16; LMS layer by contract (deterministic under the toy family)")
